@@ -4,7 +4,7 @@ import coqlit as L
 import ftutil as U
 
 ID = "C16"
-THEOREMS = ["C16_flush", "C16_consumable", "C16_header", "C16_model_flush_consumable", "C16_model_header", "C16_intersect_rows", "C16_positions_refuted",
+THEOREMS = ["C16_flush", "C16_consumable", "C16_model_flush_consumable", "C16_intersect_rows", "C16_positions_refuted",
             "C16_trace_is_emits", "C16_level_spec", "C16_plain_nest_spec", "C16_plain_nest"]
 COQ_IMPORTS = "From FT Require Import Model.Base Model.Obs Model.C16Metrics Model.C16Nest Model.C16Check."
 CHECK_VO = ["Model/C16Check.v"]
@@ -32,7 +32,12 @@ EXPLANATION = ("oracle = reference semantics of the nest (filter/lookup iteratio
                "addressing checks per trace + equality across thresholds and with the consumable rows")
 
 RANKS = ["M", "K", "N", "P", "Q"]
-KIND = {0: "iter", 1: "intersect_%d", 2: "populate_%d", 3: "populate_read_%d", 4: "populate_write_%d"}
+KIND = {0: "iter", 1: "intersect_%d", 2: "populate_%d", 3: "populate_read_%d", 4: "populate_write_%d",
+        5: "project_%d"}
+
+
+def rank_name(r):
+    return ("S" + RANKS[r - 50]) if r >= 50 else RANKS[r]
 
 
 def type_name(kind, label):
@@ -68,24 +73,40 @@ def gen_case(rng, depth=None, canon=None):
         else:
             s = ["F", int(ch[1])]
             live = [int(ch[1])]
-        levels.append([i < nz, s])
+        levels.append([i < nz, s, False, False, None, shapes[i]])
     zshape = shapes[:nz]
+    last = levels[-1]
+    if nz == D and rng.random() < 0.3:
+        # innermost level: z << x.project(c -> c + k, rank_id=<z's rank>, tick=True)
+        x = last[1][1] if last[1][0] == "F" else last[1][1]
+        last[1] = ["F", x]
+        last[4] = rng.choice([0, 1, 2])
+        zshape[-1] += last[4]
+    elif rng.random() < 0.25:
+        last[2] = True                      # input rank declared uncompressed
+    for lv_ in levels:
+        if lv_[0] and rng.random() < 0.25:
+            lv_[3] = True                   # destination rank declared uncompressed
     z = []
     if nz:
         z = U.gen_fiber(rng, nz, zshape, 0, p_absent=rng.choice([0.3, 0.6, 0.9, 1.0]),
                         p_zero=rng.choice([0.0, 0.0, 0.3]), p_emptysub=rng.choice([0.0, 0.0, 0.3]))
     keys = []
-    for i, (pop, s) in enumerate(levels):
+    for i, (pop, s, _u, _zu, proj, _sh) in enumerate(levels):
         base = 2 if pop else 0
         cand = [[i, 0, 0]]
         if s[0] == "A":
             cand += [[i, 1, base], [i, 1, base + 1]]
         if pop:
             cand += [[i, 2, 1], [i, 3, 0], [i, 4, 0]]
+        if proj is not None:
+            cand += [[50 + i, 0, 0], [50 + i, 5, 0], [50 + i, 5, 2]]
         p_keep = rng.choice([1.0, 1.0, 0.7])
         keys += [k for k in cand if rng.random() < p_keep]
     if rng.random() < 0.3:
         extra = [rng.randint(0, D), rng.choice([1, 1, 2, 3, 4]), rng.choice([0, 1, 2, 5])]
+        if extra[0] >= len(RANKS):
+            extra[0] = 0
         if extra not in keys:
             keys.append(extra)
     rng.shuffle(keys)
@@ -108,6 +129,9 @@ def streams(tier, rng):
     yield ("random", [gen_case(rng) for _ in range(n)], False)
     yield ("populate-deep", [c for c in (gen_case(rng, depth=rng.choice([2, 3]), canon=True)
                                          for _ in range(n // 2)) if c["levels"][0][0]], False)
+    yield ("formats-project", [c for c in (gen_case(rng, depth=rng.choice([1, 2, 2, 3]), canon=True)
+                                           for _ in range(n)) if any(l[2] or l[3] or l[4] is not None
+                                                                     for l in c["levels"])][:n // 2], False)
 
 
 def has_empty(t):
@@ -122,8 +146,11 @@ def nontrivial(case):
 
 def describe(case):
     return {"depth": len(case["levels"]),
-            "n_pop": sum(1 for p, _ in case["levels"] if p),
-            "any_and": any(s[0] == "A" for _, s in case["levels"]),
+            "n_pop": sum(1 for l in case["levels"] if l[0]),
+            "any_and": any(l[1][0] == "A" for l in case["levels"]),
+            "input_rank_U": any(l[2] for l in case["levels"]),
+            "dest_rank_U": any(l[3] for l in case["levels"]),
+            "projection_level": any(l[4] is not None for l in case["levels"]),
             "empty_elements_in_inputs": any(has_empty(t) for t in case["inputs"]),
             "z_prepopulated": bool(case["z"]),
             "n_keys": len(case["keys"])}
@@ -132,7 +159,8 @@ def describe(case):
 def case_to_coq(c):
     def src(s):
         return "(SFib %s)" % L.nat(s[1]) if s[0] == "F" else "(SAnd %s %s)" % (L.nat(s[1]), L.nat(s[2]))
-    lv = L.lst("(Build_level %s %s)" % (L.b(p), src(s)) for p, s in c["levels"])
+    lv = L.lst("(Build_level %s %s %s %s %s %s)" % (L.b(p), src(s), L.b(u), L.b(zu), L.opt(pj, L.z), L.z(sh))
+               for p, s, u, zu, pj, sh in c["levels"])
     keys = L.lst("(%s, %s, %s)" % (L.z(a), L.z(b_), L.z(d)) for a, b_, d in c["keys"])
     return "(Build_c16_case %s %s %s %s %s %s %s)" % (
         lv, L.lst(L.tree(t) for t in c["inputs"]), L.tree(c["z"]), L.zlist(c["zshape"]),
@@ -177,15 +205,22 @@ def _mem_rows(rows, name_ix):
 def _one_run(case, n, consumable, tmpdir, tag):
     from fibertree import Metrics
     D = len(case["levels"])
-    nz = sum(1 for p, _ in case["levels"] if p)
-    ids = RANKS[:D]
+    levels = case["levels"]
+    nz = sum(1 for l in levels if l[0])
+    ids = [("S" + RANKS[i]) if levels[i][4] is not None else RANKS[i] for i in range(D)]
     name_ix = {r: i for i, r in enumerate(RANKS)}
+    name_ix.update({"S" + r: 50 + i for i, r in enumerate(RANKS)})
     ins = [U.build_tensor(t, D, case["shapes"], 0, rank_ids=ids, name="I%d" % j)
            for j, t in enumerate(case["inputs"])]
     Z = None
     if nz:
         Z = U.build_tensor(case["z"], nz, case["zshape"], 0, rank_ids=RANKS[:nz], name="Z")
-    levels = case["levels"]
+    for i, l in enumerate(levels):
+        if l[2]:
+            for T in ins:
+                T.setFormat(ids[i], "U")
+        if l[3]:
+            Z.setFormat(RANKS[i], "U")
     m = case["skip"]
 
     def nest(i, env, z, point):
@@ -193,7 +228,13 @@ def _one_run(case, n, consumable, tmpdir, tag):
             if z is not None and not (m > 0 and sum(point) % m == 0):
                 z += 1
             return
-        pop, s = levels[i]
+        pop, s, _u, _zu, proj, _sh = levels[i]
+        if proj is not None:
+            a_n = env[s[1]].project(trans_fn=lambda c_, k_=proj: c_ + k_, tick=True,
+                                    rank_id=RANKS[i], coord_ex=0)
+            for c, (zr, p) in (z << a_n).iterOccupancy(tick=False):
+                nest(i + 1, _bind(env, s, p), zr, point + [c])
+            return
         fib = env[s[1]] if s[0] == "F" else env[s[1]] & env[s[2]]
         if pop:
             for c, (zr, p) in z << fib:
@@ -217,20 +258,20 @@ def _one_run(case, n, consumable, tmpdir, tag):
     Metrics.beginCollect(prefix)
     try:
         for r, kind, label in case["keys"]:
-            Metrics.trace(RANKS[r], type_name(kind, label))
+            Metrics.trace(rank_name(r), type_name(kind, label))
             if consumable:
-                Metrics.trace(RANKS[r], type_name(kind, label), consumable=True)
+                Metrics.trace(rank_name(r), type_name(kind, label), consumable=True)
         nest(0, [t.getRoot() for t in ins], Z.getRoot() if Z is not None else None, [])
         mems = None
         if consumable:
-            mems = [_mem_rows(Metrics.consumeTrace(RANKS[r], type_name(kind, label)), name_ix)
+            mems = [_mem_rows(Metrics.consumeTrace(rank_name(r), type_name(kind, label)), name_ix)
                     for r, kind, label in case["keys"]]
     finally:
         try:
             Metrics.endCollect()
         finally:
             Metrics.setNumCachedUses(1000)
-    files = [_parse("%s-%s-%s.csv" % (prefix, RANKS[r], type_name(kind, label)), name_ix)
+    files = [_parse("%s-%s-%s.csv" % (prefix, rank_name(r), type_name(kind, label)), name_ix)
              for r, kind, label in case["keys"]]
     zsnap = U.snap(Z.getRoot()) if Z is not None else []
     return files, mems, zsnap
